@@ -19,7 +19,7 @@
 (*                                                                          *)
 (* As in MergeAlgebra, CONTRACTS (what C07/C08 demand) are kept apart from *)
 (* the REFERENCE TRANSCRIPTION of today's algorithm (Ref...).              *)
-EXTENDS MergeAlgebra
+EXTENDS MergeAlgebra, Dag
 
 Absent == 0
 Unres  == 0 - 1                     \* "does not resolve"
@@ -112,22 +112,30 @@ ExpConflictPaths(ts, accept) ==
 (* CONTRACT C07.  ts: the flattened input terms.  out: what the merged     *)
 (* tree answers: pv = path_value per path, hc = has_conflict(), cf = the   *)
 (* paths conflicts() yields.  Returns the name of the first clause that    *)
-(* fails, "ok" if none.                                                    *)
+(* fails, "ok" if none.  (The LET definitions repeat ExpF/ExpX/ExpY/Clash/ *)
+(* ExpConflictPaths so that TLC evaluates each of them once per call.)     *)
 MergeVerdict(ts, accept, out) ==
-  LET clash == Clash(ts, accept)
-      ex == ExpX(ts, accept)  ey == ExpY(ts, accept)
-      dres == PathResolve(DV(ts), accept)
+  LET dv    == DV(ts)
+      ef    == PathMerge(FV(ts), accept)
+      dres  == PathResolve(dv, accept)
+      clash == dres = Unres /\ ~AllTreeOrAbsent(Simplify(dv))
+      dir   == ~clash /\ (dres = Unres \/ IsTreeV(dres))        \* d is expected to be a directory (or absent)
+      ex    == PathMerge(XV(ts), accept)
+      ey    == PathMerge(YV(ts), accept)
+      ecp   == (IF Resolved(ef) THEN {} ELSE {"f"})
+               \cup (IF clash THEN {"d"}
+                     ELSE (IF Resolved(ex) THEN {} ELSE {"d/x"}) \cup (IF Resolved(ey) THEN {} ELSE {"d/y"}))
   IN
-  IF ~NormEq(out.pv.f, ExpF(ts, accept), accept) THEN "PathValueF"
-  ELSE IF clash /\ ~NormEq(out.pv.d, DV(ts), accept) THEN "PathValueClash"
+  IF ~NormEq(out.pv.f, ef, accept) THEN "PathValueF"
+  ELSE IF clash /\ ~NormEq(out.pv.d, dv, accept) THEN "PathValueClash"
   ELSE IF ~clash /\ ~NormEq(out.pv.x, ex, accept) THEN "PathValueX"
   ELSE IF ~clash /\ ~NormEq(out.pv.y, ey, accept) THEN "PathValueY"
-  ELSE IF ~clash /\ dres # Unres /\ ~IsTreeV(dres) /\ ~NormEq(out.pv.d, <<dres>>, accept) THEN "PathValueD"
-  ELSE IF ~clash /\ (dres = Unres \/ IsTreeV(dres)) /\ ~AllTreeOrAbsent(out.pv.d) THEN "DirectoryExpected"
-  ELSE IF ~clash /\ (dres = Unres \/ IsTreeV(dres)) /\ Resolved(ex) /\ Resolved(ey)
+  ELSE IF ~clash /\ ~dir /\ ~NormEq(out.pv.d, <<dres>>, accept) THEN "PathValueD"
+  ELSE IF dir /\ ~AllTreeOrAbsent(out.pv.d) THEN "DirectoryExpected"
+  ELSE IF dir /\ Resolved(ex) /\ Resolved(ey)
           /\ ~NormEq(out.pv.d, <<TreeV(ex[1], ey[1])>>, accept) THEN "DirectoryValue"
-  ELSE IF out.hc # (ExpConflictPaths(ts, accept) # {}) THEN "ConflictFreeIffNoPathConflicts"
-  ELSE IF out.cf # ExpConflictPaths(ts, accept) THEN "ConflictPaths"
+  ELSE IF out.hc # (ecp # {}) THEN "ConflictFreeIffNoPathConflicts"
+  ELSE IF out.cf # ecp THEN "ConflictPaths"
   ELSE "ok"
 MergeOK(ts, accept, out) == MergeVerdict(ts, accept, out) = "ok"
 
@@ -194,15 +202,15 @@ RefPathValue(R, accept) ==
       d |-> dv,
       x |-> IF sub THEN RefValue(Map(dv, TX), accept) ELSE <<Absent>>,
       y |-> IF sub THEN RefValue(Map(dv, TY), accept) ELSE <<Absent>>]
-RefConflicts(R, accept) ==
-  LET pv == RefPathValue(R, accept) IN
+RefConflicts(R, pv) ==
   IF Len(R) = 1 THEN {}
   ELSE (IF Resolved(pv.f) THEN {} ELSE {"f"})
        \cup (IF Resolved(pv.d) THEN {}
              ELSE IF IsTreeMerge(pv.d)
                   THEN (IF Resolved(pv.x) THEN {} ELSE {"d/x"}) \cup (IF Resolved(pv.y) THEN {} ELSE {"d/y"})
                   ELSE {"d"})
-RefObserve(R, accept) == [hc |-> Len(R) > 1, pv |-> RefPathValue(R, accept), cf |-> RefConflicts(R, accept)]
+RefObserve(R, accept) ==
+  LET pv == RefPathValue(R, accept) IN [hc |-> Len(R) > 1, pv |-> pv, cf |-> RefConflicts(R, pv)]
 
 (* The shape of the known finding (DESIGN 7, C07): at d the file terms     *)
 (* cancel and leave only directory/absent terms, but process_tree tests    *)
@@ -215,23 +223,98 @@ FileTermsCancelLeavingTrees(ts, accept) ==
   /\ IsTreeMerge(Simplify(dv))
 
 ---------------------------------------------------------------------------
-(* C08.  Rebasing: new = merge <<newBase, oldBase, old>>; each of the      *)
-(* three may be a conflicted tree (a merge of trees).                      *)
-RebaseTerms(newBase, oldBase, old) == Flatten(<<newBase, oldBase, old>>)
+(* C08.  Rebasing a commit:  new = merge <<newBase, oldBase, old>>  where  *)
+(* a base is the recursive merge of the parents (rewrite.rs).               *)
 
-(* path value of a (possibly conflicted) tree given as a merge of trees    *)
-PV(R, accept) == RefPathValue(R, accept)
+(* Leaf view of observed path values: at d only a file-like entry counts    *)
+(* (a directory exists through its entries, which are judged at d/x, d/y),  *)
+(* so the paths are f, "the file-like entry d", d/x, d/y.                   *)
+LeafD(v) == IF IsTreeV(v) THEN Absent ELSE v
+LeafView(pv) == [f |-> pv.f, d |-> Map(pv.d, LeafD), x |-> pv.x, y |-> pv.y]
+(* d is in file/directory conflict: path_value hides d/x and d/y *)
+Subsumes(pv) == ~Resolved(pv.d) /\ ~AllTreeOrAbsent(pv.d)
 
-(* CONTRACT C08 on observed path values (each a merge).  Paths below a     *)
-(* clash in any of the four trees are not judged individually.             *)
-Paths == {"f", "d", "x", "y"}
+LeafPaths == {"f", "d", "x", "y"}
 Get(pv, p) == IF p = "f" THEN pv.f ELSE IF p = "d" THEN pv.d ELSE IF p = "x" THEN pv.x ELSE pv.y
-RebaseVerdict(pvOld, pvOldBase, pvNewBase, pvNew, accept) ==
-  LET Law1(p) == NormEq(Get(pvOld, p), Get(pvOldBase, p), accept)
-                   => NormEq(Get(pvNew, p), Get(pvNewBase, p), accept)
-      Law2(p) == NormEq(Get(pvOldBase, p), Get(pvNewBase, p), accept)
-                   => NormEq(Get(pvNew, p), Get(pvOld, p), accept)
-  IN IF \E p \in Paths : ~Law1(p) THEN "UnchangedPathTakesNewParent"
-     ELSE IF \E p \in Paths : ~Law2(p) THEN "AgreedPathKeepsCommit"
+
+(* CONTRACT C08 (the two per-path laws) on the observed path values of the  *)
+(* commit's tree, its old parents' merged tree, the new parents' merged     *)
+(* tree and the rebased tree.                                               *)
+RebaseLawsVerdict(pvOld, pvOldBase, pvNewBase, pvNew, accept) ==
+  LET o == LeafView(pvOld)  ob == LeafView(pvOldBase)  nb == LeafView(pvNewBase)  n == LeafView(pvNew)
+      hidden == Subsumes(pvOld) \/ Subsumes(pvOldBase) \/ Subsumes(pvNewBase) \/ Subsumes(pvNew)
+      Judged == IF hidden THEN {"f", "d"} ELSE LeafPaths
+      Law1(p) == NormEq(Get(o, p), Get(ob, p), accept) => NormEq(Get(n, p), Get(nb, p), accept)
+      Law2(p) == NormEq(Get(ob, p), Get(nb, p), accept) => NormEq(Get(n, p), Get(o, p), accept)
+  IN IF \E p \in Judged : ~Law1(p) THEN "UnchangedPathTakesNewParents"
+     ELSE IF \E p \in Judged : ~Law2(p) THEN "AgreedPathKeepsCommit"
      ELSE "ok"
+(* the commit's changes and the parent change touch disjoint paths *)
+DisjointChanges(pvOld, pvOldBase, pvNewBase, accept) ==
+  LET o == LeafView(pvOld)  ob == LeafView(pvOldBase)  nb == LeafView(pvNewBase) IN
+  /\ ~(Subsumes(pvOld) \/ Subsumes(pvOldBase) \/ Subsumes(pvNewBase))
+  /\ \A p \in LeafPaths : NormEq(Get(o, p), Get(ob, p), accept) \/ NormEq(Get(ob, p), Get(nb, p), accept)
+
+(* the same tree up to Norm (conflict terms may be permuted) *)
+NormSamePV(a, b, accept) ==
+  /\ NormEq(a.f, b.f, accept) /\ NormEq(a.d, b.d, accept)
+  /\ NormEq(a.x, b.x, accept) /\ NormEq(a.y, b.y, accept)
+
+(* REFERENCE TRANSCRIPTION: find_recursive_merge_commits, merge_commit_trees, *)
+(* CommitRewriter::rebase.  A history G = [par, auto, tree]: commit 1 is the  *)
+(* root; commit c has the ordered parents G.par[c] and either the explicit    *)
+(* tree G.tree[c] (a merge of trees, usually one) or (G.auto[c]) the merged   *)
+(* tree of its parents.                                                       *)
+RECURSIVE SeqDesc(_)
+SeqDesc(S) == IF S = {} THEN <<>>
+              ELSE LET m == CHOOSE x \in S : \A y \in S : y <= x IN <<m>> \o SeqDesc(S \ {m})
+
+RECURSIVE RecMergeCommits(_, _)
+RecMergeCommits(par, ids) ==
+  IF Len(ids) = 0 THEN <<1>>
+  ELSE IF Len(ids) = 1 THEN <<ids[1]>>
+  ELSE LET RECURSIVE Fold(_, _)
+           Fold(result, pos) ==
+             IF pos > Len(ids) THEN result
+             ELSE LET anc == SeqDesc(CommonAncestors(par, {ids[k] : k \in 1..(pos - 1)}, {ids[pos]}))
+                  IN Fold(Flatten(<<result, RecMergeCommits(par, anc), <<ids[pos]>>>>), pos + 1)
+       IN Fold(<<ids[1]>>, 2)
+
+RECURSIVE CommitTree(_, _, _)
+ParentsTree(G, ps, accept) ==
+  IF Len(ps) = 1 THEN CommitTree(G, ps[1], accept)
+  ELSE LET cs == RecMergeCommits(G.par, ps)
+       IN RefMerge([i \in 1..Len(cs) |-> CommitTree(G, cs[i], accept)], accept)
+CommitTree(G, c, accept) ==
+  IF G.auto[c] THEN ParentsTree(G, G.par[c], accept) ELSE G.tree[c]
+
+ParentTrees(G, ps, accept) == [i \in 1..Len(ps) |-> CommitTree(G, ps[i], accept)]
+RefRebase(G, c, newPs, accept) ==
+  LET oldPs == G.par[c] IN
+  IF ParentTrees(G, newPs, accept) = ParentTrees(G, oldPs, accept) THEN CommitTree(G, c, accept)   \* "skip merging"
+  ELSE RefMerge(<<ParentsTree(G, newPs, accept), ParentsTree(G, oldPs, accept), CommitTree(G, c, accept)>>, accept)
+
+(* the history after the rebase: the rewritten commit is appended *)
+AfterRebase(G, c, newPs, accept) ==
+  [par |-> Append(G.par, newPs), auto |-> Append(G.auto, FALSE),
+   tree |-> Append(G.tree, RefRebase(G, c, newPs, accept))]
+(* rebase away and back *)
+RefRoundTrip(G, c, newPs, accept) ==
+  RefRebase(AfterRebase(G, c, newPs, accept), Len(G.par) + 1, G.par[c], accept)
+
+(* Shape of the C08 finding: the parents' tree lists are equal, so rebase    *)
+(* skips the merge, although the merged trees of the old and the new parents *)
+(* differ (they depend on the ancestry, not only on the parents' trees).     *)
+ParentTreesEqualBasesDiffer(G, c, newPs, accept) ==
+  /\ ParentTrees(G, newPs, accept) = ParentTrees(G, G.par[c], accept)
+  /\ RefPathValue(ParentsTree(G, newPs, accept), accept) # RefPathValue(ParentsTree(G, G.par[c], accept), accept)
+
+(* the C07 finding shape inside one of the merges a rebase performs *)
+BaseMergeShape(G, ps, accept) ==
+  Len(ps) >= 2 /\ LET cs == RecMergeCommits(G.par, ps)
+                  IN FileTermsCancelLeavingTrees(Flatten([i \in 1..Len(cs) |-> CommitTree(G, cs[i], accept)]), accept)
+RebaseMergeShape(G, c, newPs, accept) ==
+  \/ BaseMergeShape(G, G.par[c], accept) \/ BaseMergeShape(G, newPs, accept)
+  \/ FileTermsCancelLeavingTrees(
+        Flatten(<<ParentsTree(G, newPs, accept), ParentsTree(G, G.par[c], accept), CommitTree(G, c, accept)>>), accept)
 =============================================================================
